@@ -128,7 +128,8 @@ def write_replay(prop, unit_res, fail, idx, extra=None):
         "assembled_line": fail.get("line"),
         "repo_file": src_file,
         "repo_line_approx": src_line,
-        "verifier_cmd": unit_res.get("cmd"),
+        "verifier_cmd": fail.get("cmd") or unit_res.get("cmd"),
+        "native_replay_of_counterexample": fail.get("native_replay"),
         "verifier_output": fail.get("text"),
         "failing_input": fail.get("witness"),
         "note": "Verus produces no model; a witness is present only when a Kani/native companion found one."
